@@ -105,7 +105,8 @@ def main():
     except Exception as e:  # noqa
         import traceback
         tb = traceback.format_exc()
-        if "lean driver failed" in tb or "TimeoutError" in tb or "Hang" in type(e).__name__:
+        if ("lean driver failed" in tb or "TimeoutError" in tb or "Hang" in type(e).__name__
+                or isinstance(e, (OSError, MemoryError, EOFError)) or "BrokenProcessPool" in tb):
             raise                      # infrastructure (driver, watchdog): exit code 2, never a verdict
         # the harness could not even observe the code (an attribute the real objects always have is missing, a call that
         # never raises now raises …): the correspondence no longer runs, which is reported as such — on the unchanged tree
